@@ -26,7 +26,7 @@ def run_stream(ctx, tag, env_extra, cwd):
 
 def run(args):
     ctx = Ctx("C12", args.tier, args.seed)
-    ctx.assumptions += ["only the Cargo.toml dependency section has a model; every other output (generated Rust, diagnostics and their order, formatter output, multi-file project trees) is compared byte-for-byte (hash) across processes, environments and repeated in-process runs"]
+    ctx.assumptions += ["the Cargo.toml dependency section and the module tree (which directory lists which children, and in which file) have models; every other output (generated Rust, diagnostics and their order, formatter output, multi-file project trees) is compared byte-for-byte (hash) across processes, environments and repeated in-process runs"]
     # the manifest model imports the crate table that is regenerated from the source (translator of C15)
     try:
         from .c15 import extract_crate_table, regenerate_crate_table, PROJECT_RS
@@ -62,6 +62,11 @@ def run(args):
                 ("B", {"HOME": "/tmp", "TZ": "Asia/Tokyo", "LANG": "de_DE.UTF-8", "LC_ALL": "de_DE.UTF-8", "RUST_LOG": "debug", "NO_COLOR": "1"}, "/"),
                 ("C", {"HOME": "/nonexistent", "TZ": "America/St_Johns", "LANG": "tr_TR.UTF-8", "COLUMNS": "40", "TERM": "dumb", "INCAN_EMIT_SERVICE": "1", "INCAN_HOME": "/nowhere", "CARGO_HOME": "/tmp/x"}, ctx.scratch)]
         runs = [run_stream(ctx, tag, e, cwd) for tag, e, cwd in envs]
+        # correspondence for the module tree model (Tool/ModuleTree.lean): generate_nested on generated path sets
+        tree = [(k, v) for k, v in runs[0].items() if k.startswith("c12 modtree ")]
+        tmodel = ctx.run_driver([k for k, _ in tree])
+        ctx.tie("model module tree (children sorted and distinct; mod.rs or the module's own file, never both) = files written by generate_nested, three fresh hash maps each",
+                tree, tmodel)
         keys = sorted(runs[0])
         ctx.evaluations = len(cases) + sum(len(r) for r in runs)
         for k in keys:
@@ -75,7 +80,7 @@ def run(args):
             ctx.violation("oracle", f)
         ctx.samples = [{"request": k, "real": runs[0][k]} for k in keys[:3] + keys[-4:]]
         ctx.coverage_extra = {"manifest_groups": len(groups), "sources_hashed": len(keys), "processes": len(envs),
-                              "environments": [e for _, e, _ in envs], "oracle_failures": len(failures), "harness_meta": metas}
+                              "environments": [e for _, e, _ in envs], "oracle_failures": len(failures), "harness_meta": metas, "module_tree_cases": len(tree)}
     ctx.conclude_broken_obligations(failures)
     return ctx.finish(
         rule="every repository .incn file + 4 programs built to provoke ordering (several missing fields, unknown names, traits, rust:: imports) + 3 multi-file projects through `incan build` (stub cargo): diagnostics, emitted Rust, formatter output, diffs, project trees hashed twice in-process and in 3 processes with different HOME/TZ/locale/cwd; ProjectGenerator manifests repeated with fresh hash maps; distinct = distinct source / project description",
